@@ -84,7 +84,7 @@ def eval_arrangement(args):
             k = rng.randrange(2, 4); parts = [decls[i::k] for i in range(k)]
             names = ['main.xsd'] + [f'sub/p{i}.xsd' for i in range(1, k)]
             for i in range(1, k): open(os.path.join(d, names[i]), 'w').write(HEAD + ''.join(parts[i]) + '</xs:schema>')
-            spell = (lambda nm: nm) if kind == 'split' else (lambda nm: rng.choice([nm, './' + nm, 'sub/../' + nm, os.path.join(d, nm), 'file://' + os.path.join(d, nm)]))
+            spell = (lambda nm: nm) if kind == 'split' else (lambda nm: rng.choice([nm, './' + nm, 'sub/../' + nm, os.path.join(d, nm), 'file://' + os.path.join(d, nm), os.path.join(d, 'sub', '..', nm), 'file://' + os.path.join(d, 'sub', '..', nm), os.path.join(d, '.', nm)]))
             incs = ''.join(f'<xs:include schemaLocation="{spell(names[i])}"/>' for i in range(1, k))
             if kind == 'spell': incs += f'<xs:include schemaLocation="{spell(names[1])}"/>'
             open(os.path.join(d, 'main.xsd'), 'w').write(HEAD + incs + ''.join(parts[0]) + '</xs:schema>')
@@ -108,7 +108,7 @@ def eval_arrangement(args):
             # option, or as text with the base_url option: a relative location resolves from the document that contains it, whatever base the caller named for the main source
             d = os.path.join(root, f'{ver}_{kind}_{seed}'); os.makedirs(os.path.join(d, 'sub'))
             parts = [decls[i::3] for i in range(3)]
-            spell = rng.choice(['b.xsd', './b.xsd', '../sub/b.xsd', os.path.join(d, 'sub', 'b.xsd'), 'file://' + os.path.join(d, 'sub', 'b.xsd')])
+            spell = rng.choice(['b.xsd', './b.xsd', '../sub/b.xsd', os.path.join(d, 'sub', 'b.xsd'), 'file://' + os.path.join(d, 'sub', 'b.xsd'), os.path.join(d, 'sub', '..', 'sub', 'b.xsd'), 'file://' + os.path.join(d, 'sub', '..', 'sub', 'b.xsd')])
             open(os.path.join(d, 'sub', 'b.xsd'), 'w').write(HEAD + ''.join(parts[2]) + '</xs:schema>')
             open(os.path.join(d, 'sub', 'a.xsd'), 'w').write(HEAD + f'<xs:include schemaLocation="{spell}"/>' + ''.join(parts[1]) + '</xs:schema>')
             main = HEAD + '<xs:include schemaLocation="sub/a.xsd"/>' + ''.join(parts[0]) + '</xs:schema>'
